@@ -276,6 +276,23 @@ def is_int_enum(ci):
     return False
 
 
+def is_enum(ci):
+    for c in ci.mro():
+        for b in c.bases:
+            bn = b if isinstance(b, str) else b.name
+            if bn.split('.')[-1] in ('IntEnum', 'IntFlag', 'Enum', 'Flag'):
+                return True
+    return False
+
+
+def _demangled(c, name):
+    """`_K__x` seen from class K is the private name `__x` written inside K's body."""
+    pre = '_%s__' % c.name.lstrip('_')
+    if name.startswith(pre) and not name.endswith('__'):
+        return '__' + name[len(pre):]
+    return None
+
+
 def _num(v):
     if isinstance(v, Obj) and v.ival is not None:
         return v.ival
@@ -327,6 +344,7 @@ class Evaluator(object):
         self.depth = 0
         self.touched = set()      # qualnames of the functions evaluated (evidence)
         self._gen = {}            # id(function node) -> is a generator
+        self.class_state = {}     # (class key, attribute) -> value: class attributes evaluated once / stored through cls.x = v
 
     # ------------------------------------------------------------------------------------------- public API
     def reset(self):
@@ -375,6 +393,17 @@ class Evaluator(object):
             if isinstance(v, int) and any(isinstance(m, int) and m == v for m in members.values()):
                 return int(v)
             raise Raised('ValueError', '%r is not a valid %s' % (v, ci.name))
+        if is_enum(ci):
+            # plain Enum: members are modelled by their values
+            if len(args) != 1:
+                raise NoEval('enum call %s with %d arguments' % (ci.name, len(args)))
+            v = _num(args[0])
+            try:
+                if any(m == v and type(m) is type(v) for m in ci.enum_members().values()):
+                    return v
+            except Exception:
+                raise NoEval('enum call %s(%r)' % (ci.name, v))
+            raise Raised('ValueError', '%r is not a valid %s' % (v, ci.name))
         new = ci.find_method('__new__')
         if new is not None:
             obj = self._call_func(Func(new, None), [ClassRef(ci)] + args, kwargs)
@@ -419,20 +448,16 @@ class Evaluator(object):
                 owner = next((c for c in ci.mro() if name in c.methods), None)
                 if owner is None or name in owner.plain_props:
                     return self._call_func(Func(pp['get'], obj), [], {})
-            f = ci.find_method(name)
+            f = self._find_method(ci, name)
             if f is not None:
                 if _is_static(f):
                     return Func(f, None)
                 if _is_classmethod(f):
                     return Func(f, ClassRef(ci))
                 return Func(f, obj)
-            av = None
-            for c in ci.mro():
-                if name in c.attrs:
-                    av = (c, c.attrs[name])
-                    break
-            if av is not None:
-                return self._class_attr(av[0], name, av[1])
+            found, v = self._class_lookup(ci, name)
+            if found:
+                return v
             if name == '__class__':
                 return ClassRef(ci)
             if name == '__dict__':
@@ -442,14 +467,16 @@ class Evaluator(object):
             raise Raised('AttributeError', '%s has no attribute %s' % (ci.name, name))
         if isinstance(obj, ClassRef):
             ci = obj.ci
-            f = ci.find_method(name)
+            if any((c.key, name) in self.class_state for c in ci.mro()):
+                return self._class_lookup(ci, name)[1]
+            f = self._find_method(ci, name)
             if f is not None and ci.find_prop(name) is None and ci.find_plain_prop(name) is None:
                 if _is_classmethod(f):
                     return Func(f, obj)
                 return Func(f, None)
-            for c in ci.mro():
-                if name in c.attrs:
-                    return self._class_attr(c, name, c.attrs[name])
+            found, v = self._class_lookup(ci, name)
+            if found:
+                return v
             if name == '__name__':
                 return ci.name
             raise Raised('AttributeError', 'class %s has no attribute %s' % (ci.name, name))
@@ -489,7 +516,7 @@ class Evaluator(object):
             if isinstance(v, bool) and name in ('bit_length', 'to_bytes'):
                 return Builtin('m:' + name, int(v))
             ok = {
-                int: ('bit_length', 'to_bytes', 'real', 'numerator'),
+                int: ('bit_length', 'to_bytes', 'real', 'numerator', 'value'),
                 bytes: ('join', 'hex', 'startswith', 'endswith', 'decode', 'index', 'find', 'count', 'rjust', 'ljust', 'lstrip'),
                 VBuf: ('append', 'extend', 'pop', 'hex', 'insert', 'clear', 'copy', 'decode', 'startswith', 'endswith'),
                 str: ('format', 'encode', 'join', 'upper', 'lower', 'startswith', 'endswith', 'replace', 'strip', 'split'),
@@ -497,9 +524,11 @@ class Evaluator(object):
                 dict: ('get', 'keys', 'values', 'items', 'pop', 'setdefault'),
                 tuple: ('index', 'count'),
             }
+            if name == 'value' and isinstance(v, (str, bytes, tuple)):
+                return v                # value of an enum member modelled by its value
             for t, names in ok.items():
                 if isinstance(v, t) and name in names:
-                    if t is int and name in ('real', 'numerator'):
+                    if t is int and name in ('real', 'numerator', 'value'):
                         return int(v)
                     return Builtin('m:' + name, v)
             raise Raised('AttributeError', '%s object has no attribute %s' % (type(v).__name__, name)) \
@@ -507,14 +536,45 @@ class Evaluator(object):
         raise NoEval('attribute %s of %r' % (name, v))
 
     def _class_attr(self, ci, name, expr):
-        fr = _Frame(self, FunctionInfo(ast.parse('def __classbody__(): pass').body[0], ci.module, ci), {}, None)
+        key = (ci.key, name)
+        if key in self.class_state:
+            return self.class_state[key]
+        fr = _Frame(self, FunctionInfo(_CLASSBODY, ci.module, ci), {}, None)
+        fr.classbody = ci
         if is_int_enum(ci):
             members = ci.enum_members()
             if name in members and isinstance(members[name], int):
                 return members[name]
-        return fr.ev(expr)
+        v = fr.ev(expr)
+        self.class_state[key] = v          # evaluated once, like the class body: a table filled later keeps its identity
+        return v
+
+    def _class_lookup(self, ci, name):
+        """(found, value) of a class-level attribute through the MRO: stored values first, then class-body assignments (a private
+        name `__x` of class K is reachable as `_K__x`)."""
+        for c in ci.mro():
+            if (c.key, name) in self.class_state:
+                return True, self.class_state[(c.key, name)]
+            if name in c.attrs:
+                return True, self._class_attr(c, name, c.attrs[name])
+            d = _demangled(c, name)
+            if d is not None and d in c.attrs:
+                return True, self._class_attr(c, name, c.attrs[d])
+        return False, None
+
+    def _find_method(self, ci, name):
+        f = ci.find_method(name)
+        if f is None:
+            for c in ci.mro():
+                d = _demangled(c, name)
+                if d is not None and d in c.methods:
+                    return c.methods[d]
+        return f
 
     def _setattr(self, obj, name, value):
+        if isinstance(obj, ClassRef):
+            self.class_state[(obj.ci.key, name)] = value
+            return
         if not isinstance(obj, Obj):
             raise NoEval('attribute store on %r' % (obj,))
         p = self._prop(obj.cls, name)
@@ -552,6 +612,16 @@ class Evaluator(object):
             return self._construct(f.ci, args, kwargs)
         if isinstance(f, Builtin):
             return self._call_builtin(f, args, kwargs)
+        if isinstance(f, Ext) and f.name in ('collections.deque', 'deque'):
+            # deque(iterable, maxlen=n): the last n elements (modelled as a list: [0], [-1], pop(), iteration)
+            items = list(self._iter(args[0])) if args else []
+            maxlen = args[1] if len(args) > 1 else kwargs.get('maxlen')
+            maxlen = _num(maxlen) if maxlen is not None else None
+            if maxlen is not None:
+                if not isinstance(maxlen, int) or maxlen < 0:
+                    raise Raised('ValueError', 'maxlen must be non-negative')
+                items = items[len(items) - maxlen:] if maxlen else []
+            return items
         if isinstance(f, Ext):
             if f.name in ('logging.getLogger', 'logging.Logger.getChild', 'logging.LoggerAdapter') or \
                     (f.name.startswith('logging.Logger') and f.name.split('.')[-1] == 'getChild'):
@@ -1037,13 +1107,27 @@ def _own_nodes(fn):
             stack.append(ch)
 
 
+_CLASSBODY = ast.parse('def __classbody__(): pass').body[0]
+
+
 class _Frame(object):
+    classbody = None
+
     def __init__(self, ev, fi, env, closure):
         self.E = ev
         self.fi = fi
         self.module = fi.module
         self.env = env
         self.closure = closure
+        f = fi
+        while f is not None and f.cls is None:
+            f = f.outer
+        self.lexcls = f.cls if f is not None else None       # lexically enclosing class: private names are mangled with it
+
+    def mangle(self, attr):
+        if self.lexcls is not None and attr.startswith('__') and not attr.endswith('__'):
+            return '_%s%s' % (self.lexcls.name.lstrip('_'), attr)
+        return attr
 
     def tick(self):
         self.E.steps += 1
@@ -1136,7 +1220,7 @@ class _Frame(object):
             for e, x in zip(t.elts, vals):
                 self.assign(e, x)
         elif isinstance(t, ast.Attribute):
-            self.E._setattr(self.ev(t.value), t.attr, v)
+            self.E._setattr(self.ev(t.value), self.mangle(t.attr), v)
         elif isinstance(t, ast.Subscript):
             base = self.ev(t.value)
             if isinstance(t.slice, ast.Slice):
@@ -1210,8 +1294,8 @@ class _Frame(object):
                         raise NoEval('item deletion on %r' % (base,))
             elif isinstance(t, ast.Attribute):
                 o = self.ev(t.value)
-                if isinstance(o, Obj) and t.attr in o.attrs:
-                    del o.attrs[t.attr]
+                if isinstance(o, Obj) and self.mangle(t.attr) in o.attrs:
+                    del o.attrs[self.mangle(t.attr)]
                 else:
                     raise NoEval('attribute deletion')
             else:
@@ -1334,7 +1418,16 @@ class _Frame(object):
             return self.lookup(n)
         except KeyError:
             pass
-        # a name assigned somewhere in this function but not yet bound
+        cb = self.classbody
+        fr = self.closure
+        while cb is None and fr is not None:
+            cb, fr = fr.classbody, fr.closure
+        if cb is not None:
+            # evaluating a class-level expression: names of the class body
+            if n in cb.attrs:
+                return self.E._class_attr(cb, n, cb.attrs[n])
+            if n in cb.methods and n not in cb.props and n not in cb.plain_props:
+                return Func(cb.methods[n], None)
         r = self.E.prog.lookup(self.module, n)
         if isinstance(r, ClassInfo):
             return ClassRef(r)
@@ -1356,7 +1449,7 @@ class _Frame(object):
         raise Raised('NameError', n)
 
     def ev_Attribute(self, node):
-        return self.E._getattr(self.ev(node.value), node.attr)
+        return self.E._getattr(self.ev(node.value), self.mangle(node.attr))
 
     def ev_Tuple(self, node):
         return tuple(self._elts(node.elts))
@@ -1437,13 +1530,30 @@ class _Frame(object):
     def ev_BinOp(self, node):
         return self.E.binop(node.op, self.ev(node.left), self.ev(node.right))
 
+    def _enum_member_node(self, n):
+        """`Enum.Member` written out: enum members are singletons modelled by their values, so `x is Enum.Member` is value equality."""
+        if isinstance(n, ast.Attribute) and isinstance(n.value, (ast.Name, ast.Attribute)):
+            try:
+                base = self.ev(n.value)
+            except (NoEval, Raised):
+                return False
+            return isinstance(base, ClassRef) and is_enum(base.ci) and n.attr in base.ci.enum_members()
+        return False
+
     def ev_Compare(self, node):
         left = self.ev(node.left)
+        lnode = node.left
         for op, c in zip(node.ops, node.comparators):
             right = self.ev(c)
-            if not self.E.truth(self.E.compare(op, left, right)):
+            if isinstance(op, (ast.Is, ast.IsNot)) and (self._enum_member_node(lnode) or self._enum_member_node(c)) and \
+                    not isinstance(_num(left), (Obj, VBuf, list, dict)) and not isinstance(_num(right), (Obj, VBuf, list, dict)):
+                same = type(_num(left)) is type(_num(right)) and _num(left) == _num(right)
+                res = same if isinstance(op, ast.Is) else not same
+            else:
+                res = self.E.truth(self.E.compare(op, left, right))
+            if not res:
                 return False
-            left = right
+            left, lnode = right, c
         return True
 
     def ev_NamedExpr(self, node):
